@@ -1,6 +1,6 @@
 """C19 — depth is limited by memory, not by the host's native stack (R19a-b)."""
 import re
-from ..facts import short_path
+from ..facts import callee, short_path
 from .common import *
 
 # Recursions whose depth does not grow with the data, each with the reason (reviewed by reading).
@@ -149,9 +149,62 @@ def r19c(ctx, rep):
                      "10^5 long costs 10^5 nested marker frames" % (v, i, ", ".join(sorted(got)) or "nothing"), [fn.span])
 
 
+MATERIALISERS = {
+    # function -> why it may turn run-time data into a (natively recursive) datum on a success path
+    "marwood::vm::heap::Heap::get_as_cell": "the conversion itself (its own recursion is an R19a entry)",
+    "marwood::vm::builtin::ports::display": "output: the datum is what gets printed",
+    "marwood::vm::builtin::ports::write": "output: the datum is what gets printed",
+    "marwood::vm::builtin::procedure::error": "the irritants become the error's payload (the procedure never returns Ok)",
+    "marwood::vm::builtin::procedure::eval": "eval's argument is a datum by definition; it is handed to the compiler",
+    "marwood::vm::run::<impl marwood::vm::Vm>::run_count": "the result of an evaluation is returned to the host as a datum",
+    "marwood::vm::opcode::<impl marwood::vm::Vm>::decompile_one": "diagnostic rendering of bytecode operands",
+}
+
+
+def r19d(ctx, rep, rule="R19d"):
+    facts = ctx["facts"]
+    rep.rule(rule, "run-time data is turned into a datum only where the language asks for one: Heap::get_as_cell builds a Cell "
+             "tree whose construction (car direction) and destruction (compiler-generated Drop, both directions) recurse on "
+             "the native stack — the recorded R19a/R19b findings. Every call of it is either error-only (each path from the "
+             "call to a return passes the construction of an Err: the datum is the payload of an error message) or lies in one "
+             "of the reviewed materialisers (output, eval, the result handed to the host). A conversion on the success path "
+             "of an ordinary procedure makes its native depth follow the size of its argument.")
+    n = 0
+    seen_fns = set()
+    for p, f in sorted(facts.fns.items()):
+        if f.crate != "marwood" or "::tests::" in p:
+            continue
+        sites = [(bb, t) for bb, t in f.calls() if (callee(t) or "").endswith("Heap::get_as_cell")]
+        if not sites:
+            continue
+        E = {bb for bb, j, st in f.stmts() if st["rv"]["k"] == "agg" and st["rv"].get("variant") == "Err"}
+        rets = set(f.return_blocks())
+        k = 0
+        for bb, t in sites:
+            n += 1
+            k += 1
+            base = p.split("::{closure")[0]
+            key = "%s|%s|site#%d" % (rule, short_path(p), k)
+            if base in MATERIALISERS:
+                seen_fns.add(base)
+                rep.ok(rule, key, "%s: reviewed materialiser (%s)" % (short_path(p), MATERIALISERS[base]), [t["loc"]])
+                continue
+            reach = f.reach_from(t["target"], avoid=E) if t.get("target") is not None else set()
+            if reach & rets:
+                rep.fail(rule, key, "%s converts a run-time value to a datum on a path that can return without constructing an "
+                         "error: the Cell is built (and dropped) even when the call succeeds, so the native depth of an ordinary "
+                         "call follows the length / nesting of its argument" % short_path(p), [t["loc"]])
+            else:
+                rep.ok(rule, key, "%s: the datum is built only on the way to an Err" % short_path(p), [t["loc"]])
+    rep.floor(rule, "call sites of Heap::get_as_cell", n, 30)
+    for m in sorted(set(MATERIALISERS) - seen_fns):
+        rep.ok(rule, "%s|table|%s" % (rule, short_path(m)), "reviewed materialiser %s no longer converts (entry unused)" % short_path(m), nontrivial=False)
+
+
 def run(ctx, rep):
     r19a(ctx, rep)
     r19b(ctx, rep)
     r19c(ctx, rep)
+    r19d(ctx, rep)
     rep.not_decided += ["actual frame sizes and the depth at which the abort happens",
                         "recursion hidden inside external crates (num, std)"]
